@@ -447,9 +447,81 @@ func ruleGEPVLEN(c *Ctx) []Obligation {
 				ta, ok := as.Rhs[0].(*ast.TypeAssertExpr)
 				return ok && ta.Type != nil && isNamed(info.TypeOf(ta.Type), pkgTYP, "VectorType")
 			}
+			var lenObj types.Object // the index variable whose VectorLen the test has set
+			// guard-clause form of the test:  vt, ok := T.(*types.VectorType); if !ok { return idx / continue };
+			// idx.VectorLen = vt.Len …  — rewritten here as the if-with-init form over the rest of the list
+			for i := 0; i+1 < len(list); i++ {
+				as, ok := list[i].(*ast.AssignStmt)
+				if !ok || len(as.Lhs) != 2 || len(as.Rhs) != 1 || as.Tok != token.DEFINE {
+					continue
+				}
+				ta, ok := as.Rhs[0].(*ast.TypeAssertExpr)
+				if !ok || ta.Type == nil || !isNamed(info.TypeOf(ta.Type), pkgTYP, "VectorType") {
+					continue
+				}
+				g, ok := list[i+1].(*ast.IfStmt)
+				if !ok || g.Init != nil || g.Else != nil || len(g.Body.List) != 1 {
+					continue
+				}
+				ue, ok := unparen(g.Cond).(*ast.UnaryExpr)
+				if !ok || ue.Op != token.NOT || exprString(ue.X) != exprString(as.Lhs[1]) {
+					continue
+				}
+				switch x := g.Body.List[0].(type) {
+				case *ast.BranchStmt:
+					if x.Tok != token.CONTINUE {
+						continue
+					}
+				case *ast.ReturnStmt:
+				default:
+					continue
+				}
+				tail := append([]ast.Stmt{}, list[i+2:]...)
+				var after []ast.Stmt
+				// the statements that use the asserted type form the body; what follows the last of them stays behind
+				last := -1
+				for k, st := range tail {
+					if mentionsObj(info, stmtExprHolder(st), info.ObjectOf(as.Lhs[0].(*ast.Ident))) {
+						last = k
+					}
+				}
+				body := tail[:last+1]
+				after = tail[last+1:]
+				synth := &ast.IfStmt{If: as.Pos(), Init: as, Cond: as.Lhs[1], Body: &ast.BlockStmt{Lbrace: g.End(), List: body, Rbrace: g.End()}}
+				nl := append([]ast.Stmt{}, list[:i]...)
+				nl = append(nl, synth)
+				// in a helper the guard returns the index as it stands: the statement after the body does so too
+				if _, isRet := g.Body.List[0].(*ast.ReturnStmt); isRet && len(after) > 0 {
+					nl = append(nl, after...)
+				} else {
+					nl = append(nl, after...)
+				}
+				list = nl
+				break
+			}
 			for _, st := range list { // top level of the loop body only: every index form passes here
 				is, ok := st.(*ast.IfStmt)
 				if !isVecTest(st) {
+					// a whole assignment to the index variable after the test discards the shape recorded by it
+					if lenObj != nil {
+						ast.Inspect(st, func(m ast.Node) bool {
+							if _, ok := m.(*ast.FuncLit); ok {
+								return false
+							}
+							if a2, ok := m.(*ast.AssignStmt); ok {
+								for i, l := range a2.Lhs {
+									if len(a2.Rhs) == len(a2.Lhs) && mentionsObj(info, a2.Rhs[i], lenObj) {
+										continue // idx = f(idx): a transformation of the recorded value, not a replacement
+									}
+									if id, ok := unparen(l).(*ast.Ident); ok && info.ObjectOf(id) == lenObj && o.Verdict == OK {
+										o.Verdict, o.Pos = VIOL, c.pos(a2.Pos())
+										o.Detail = "the index variable is assigned as a whole at " + c.pos(a2.Pos()) + ", after the test that took VectorLen from the index operand's type: for that index form the recorded vector shape is discarded and a vector-typed index yields a scalar pointer result type"
+									}
+								}
+							}
+							return true
+						})
+					}
 					// a statement that can leave the iteration (continue / break / return) before the
 					// type test is reached: some index form never has its type examined
 					ast.Inspect(st, func(m ast.Node) bool {
@@ -485,6 +557,9 @@ func ruleGEPVLEN(c *Ctx) []Obligation {
 							if se, ok := unparen(l).(*ast.SelectorExpr); ok && isNamed(info.TypeOf(se.X), pkgGEP, "Index") && i < len(a2.Rhs) {
 								if se.Sel.Name == "VectorLen" && strings.HasSuffix(exprString(a2.Rhs[i]), ".Len") {
 									setsLen = true
+									if id, ok := unparen(se.X).(*ast.Ident); ok {
+										lenObj = info.ObjectOf(id)
+									}
 								}
 								if strings.Contains(se.Sel.Name, "Scalable") && strings.HasSuffix(exprString(a2.Rhs[i]), ".Scalable") {
 									setsScal = true
@@ -798,4 +873,24 @@ func ruleGEPSIB(c *Ctx) []Obligation {
 		obs = append(obs, o)
 	}
 	return obs
+}
+
+// stmtExprHolder wraps a statement so that mentionsObj can search it.
+func stmtExprHolder(st ast.Stmt) ast.Expr {
+	return &ast.FuncLit{Type: &ast.FuncType{Params: &ast.FieldList{}}, Body: &ast.BlockStmt{List: []ast.Stmt{st}}}
+}
+
+// mentionsObj: the expression refers to the object.
+func mentionsObj(info *types.Info, e ast.Expr, obj types.Object) bool {
+	found := false
+	if e == nil || obj == nil {
+		return false
+	}
+	ast.Inspect(e, func(n ast.Node) bool {
+		if id, ok := n.(*ast.Ident); ok && info.ObjectOf(id) == obj {
+			found = true
+		}
+		return !found
+	})
+	return found
 }
